@@ -70,9 +70,26 @@ def step_str(st) -> str:
     return "v:" + ",".join(st) if isinstance(st, list) else "s:" + st
 
 
-def point_data(hist, x) -> dict[str, np.ndarray]:
+def point_data(hist, x, given=None) -> dict[str, np.ndarray]:
+    """The input data passed to the discipline: every input, or the ``given`` names only (the others are left to
+    the default inputs of the discipline)."""
     sl = slices(hist["in_sizes"])
-    return {nm: np.array([float(Fraction(v)) for v in x[a : a + s]]) for nm, (a, s) in sl.items()}
+    return {nm: np.array([float(Fraction(v)) for v in x[a : a + s]]) for nm, (a, s) in sl.items()
+            if given is None or nm in given}
+
+
+def eff_x(hist, op) -> list[str]:
+    """The requested point, from the documented semantics of input data: the values passed for the ``given`` names
+    (``None`` = every input is passed), the DEFAULT inputs of the discipline for the others."""
+    given = op.get("given")
+    if given is None:
+        return list(op["x"])
+    sl = slices(hist["in_sizes"])
+    x = list(hist["defaults"])
+    for nm in given:
+        a, s = sl[nm]
+        x[a : a + s] = op["x"][a : a + s]
+    return x
 
 
 # --------------------------------------------------------------------------- the single-request view of an op
@@ -84,6 +101,8 @@ def request_of(hist, op, state) -> dict[str, Any] | None:
     kind = op["op"]
     in_names = [nm for nm, _ in hist["in_sizes"]]
     out_names = [nm for nm, _ in hist["out_sizes"]]
+    if kind in ("jac", "chk", "lin", "dchk"):
+        op = dict(op, x=eff_x(hist, op))
     if kind == "jac":
         return {"ins": op["ins"], "outs": op["outs"], "xidx": op["xidx"], "x": op["x"], "step": state["step"]}
     if kind == "chk":
@@ -165,6 +184,45 @@ def req_line(hist, req, default_step: bool = True) -> str:
     )
 
 
+def dreq_line(hist, op, req, default_step: bool = True) -> str:
+    """`dreq` line: the model completes the passed input data with the default inputs itself (`complete`), runs
+    `auto_set_step` / the execution / the approximation in the order of the code and shows the defaults afterwards."""
+    given = [nm for nm, _ in hist["in_sizes"]] if op.get("given") is None else op["given"]
+    st = "default" if default_step else step_str(req["step"])
+    return (
+        f"dreq {hist['scheme']} {'par' if hist.get('parallel') else 'ser'} "
+        f"isz={','.join(str(s) for _, s in hist['in_sizes'])} osz={','.join(str(s) for _, s in hist['out_sizes'])} "
+        f"d={','.join(rat(Fraction(v)) for v in hist['defaults'])} "
+        f"given={','.join(str(p) for p in positions(hist['in_sizes'], given)) or '[]'} "
+        f"v={','.join(rat(Fraction(v)) for v in op['x'])} auto={1 if op.get('auto') else 0} "
+        f"last={','.join(rat(Fraction(v) - 1) for v in hist['defaults'])} "
+        f"ins={','.join(str(p) for p in positions(hist['in_sizes'], req['ins'])) or '[]'} "
+        f"outs={','.join(str(p) for p in positions(hist['out_sizes'], req['outs'])) or '[]'} "
+        f"xidx={','.join(str(k) for k in req['xidx']) or '[]'} step={st} poly={base.poly_str(hist['polys'])}"
+    )
+
+
+def split_answer(ans: str) -> tuple[str, list[Fraction] | None]:
+    """(`req` part, default inputs after the request according to the model — `dreq` lines only)."""
+    if " D=" in ans:
+        a, d = ans.split(" D=", 1)
+        return a, ([] if d == "[]" else [Fraction(t) for t in d.split(",")])
+    return ans, None
+
+
+def defaults_vs_model(hist, o, model_defaults) -> str:
+    got = o.get("defaults")
+    if model_defaults is None or not isinstance(got, list):
+        return ""
+    try:
+        flat = [F(float(v)) for nm, _ in hist["in_sizes"] for v in got[0][nm]]
+    except Exception:  # noqa: BLE001
+        return f"default inputs after the request: implementation {got[0]}, model {[rat(v) for v in model_defaults]}"
+    if flat != model_defaults:
+        return f"default inputs after the request: implementation {[rat(v) for v in flat]}, model {[rat(v) for v in model_defaults]}"
+    return ""
+
+
 def hist_lines(hist) -> tuple[list[str], list[int | None]]:
     """Protocol lines of a history and, per op, the index of its `req` line (None for setstep)."""
     lines = ["new " + step_str(hist["step"])]
@@ -179,7 +237,10 @@ def hist_lines(hist) -> tuple[list[str], list[int | None]]:
         advance(hist, op, state)
         req = request_of(hist, op, state)
         where.append(len(lines))
-        lines.append(req_line(hist, req, default_step=op["op"] != "dchk"))
+        if op.get("given") is not None or op.get("auto"):
+            lines.append(dreq_line(hist, op, req, default_step=op["op"] != "dchk"))
+        else:
+            lines.append(req_line(hist, req, default_step=op["op"] != "dchk"))
     return lines, where
 
 
@@ -234,7 +295,7 @@ def gen_sel(rng, hist, ins, outs) -> dict[str, Any]:
 
 
 def gen_hist(rng, api: str | None = None) -> dict[str, Any]:
-    api = api or rng.pick(["approx", "approx", "approx", "disc", "disc"])
+    api = api or rng.pick(["approx", "disc"])
     n_in = rng.pick([2, 2, 3])
     in_sizes = [[f"x{i}", rng.pick([1, 1, 2])] for i in range(n_in)]
     n_out = rng.pick([2, 2, 3])
@@ -306,7 +367,7 @@ def gen_hist(rng, api: str | None = None) -> dict[str, Any]:
                         op = {"op": "chk", "x": x, "outs": outs, "ins": ins,
                               "sel": gen_sel(rng, hist, ins, outs) if rng.chance(0.6) else {}, "wrong": None, "threshold_pow": 0}
                 else:
-                    kind = rng.pick(["lin", "lin", "lin", "dchk"])
+                    kind = rng.pick(["lin", "lin", "lin", "dchk", "dchk"])
                     if kind == "lin":
                         if rng.chance(0.12):
                             op = {"op": "lin", "x": x, "add_ins": [], "add_outs": [], "all": True}
@@ -327,11 +388,34 @@ def gen_hist(rng, api: str | None = None) -> dict[str, Any]:
                               "sel": gen_sel(rng, hist, ins or in_names, outs or out_names) if rng.chance(0.5) else {},
                               "wrong": None, "threshold_pow": 0}
                 advance(hist, op, st_state)
+                # input data that leave some inputs to the DEFAULT inputs of the discipline: only the differentiated
+                # inputs are passed, nothing at all (``linearize()``), or any subset of the names
+                if rng.chance(0.4):
+                    r = rng.random()
+                    if op["op"] == "lin":
+                        diffd = in_names if op.get("all") else [nm for nm in in_names if nm in st_state["dins"]]
+                    else:
+                        diffd = list(op["ins"]) or in_names
+                    if r < 0.5:
+                        op["given"] = list(diffd)
+                    elif r < 0.7:
+                        op["given"] = []
+                    else:
+                        op["given"] = rng.sample(in_names, rng.randint(0, len(in_names) - 1))
+                if op["op"] == "dchk":
+                    op["lmode"] = rng.pick(["auto", "auto", "direct", "adjoint"])
+                    op["explicit"] = rng.chance(0.5)
+                    op["auto"] = scheme in ("fd", "cd") and rng.chance(0.6)
                 req = request_of(hist, op, st_state)
                 if not req["ins"] or not req["outs"] or not req_ok(hist, req):
                     continue
                 if op["op"] in ("chk", "dchk"):
+                    if op.get("auto") and auto_bound(hist, op, req) is None:
+                        op["auto"] = False
                     add_check_data(rng, hist, op, req)
+                    if op.get("auto") and op["threshold_pow"] > -6:
+                        op["auto"] = False
+                        add_check_data(rng, hist, op, req)
                 hist["ops"] += new_ops + [op]
                 state = st_state
                 prev = req
@@ -351,6 +435,10 @@ def add_check_data(rng, hist, op, req) -> None:
         for c in eq["idx"]:
             D, allowed, _ = base.allowed_bound(eq, j, c)
             maxb, maxd = max(maxb, allowed), max(maxd, abs(D))
+    if op.get("auto"):
+        # the step is the "optimal" one computed by GEMSEO at the default inputs: error bound over its admissible range
+        maxb = 2 * auto_bound(hist, op, req)
+    op["wrong"] = None
     p = max(-20, base._pow2_at_least(4 * maxb))
     op["threshold_pow"] = p
     wrong_ok = op["op"] == "chk" or hist["cache"] == "none"
@@ -363,6 +451,67 @@ def add_check_data(rng, hist, op, req) -> None:
         op["wrong"] = {"row": rng.pick(rows), "col": rng.pick(cols), "delta": rat(delta)}
 
 
+EPS = Fraction(1, 2**52)
+
+
+def auto_step_range(hist, op, req) -> dict[int, tuple[Fraction, Fraction]] | None:
+    """Range [s/2, 2s] of the documented "optimal step" of ``auto_set_step`` per differentiated global component:
+    ``s = 2 sqrt(eps |f(x0)| / |f''(x0)|)`` at the DEFAULT inputs ``x0`` (second difference with the ``step`` argument;
+    ``step`` itself where the second difference vanishes), whichever requested output GEMSEO retains.  ``None`` when the
+    formula is degenerate (an output that is 0 at the default inputs gives the step 0; a second difference that is
+    neither 0 nor clearly above GEMSEO's 1e-10 switch) — such requests are not generated."""
+    x0 = base.frl(hist["defaults"])
+    h = Fraction(op["step"])
+    hf = float(h)
+    rows = comps(hist["out_sizes"], req["outs"])
+    out: dict[int, tuple[Fraction, Fraction]] = {}
+    for c in comps(hist["in_sizes"], req["ins"]):
+        cands: list[Fraction] = []
+        for j in rows:
+            p = hist["polys"][j]
+            xp, xm = list(x0), list(x0)
+            xp[c] = x0[c] + h
+            xm[c] = x0[c] - h
+            f0, fp, fm = (float(eval_poly(p, pt)) for pt in (x0, xp, xm))
+            hess = (fp - 2 * f0 + fm) / hf**2
+            if hess == 0.0:
+                cands.append(h)
+            elif abs(hess) >= 1e-6 and f0 != 0.0 and math.isfinite(hess):
+                cands.append(F(2 * math.sqrt(2.0**-52 * abs(f0) / abs(hess))))
+            else:
+                return None
+        out[c] = (min(cands) / 2, max(cands) * 2)
+    return out
+
+
+def auto_bound(hist, op, req) -> Fraction | None:
+    """Largest admissible error of an entry of the reference Jacobian of ``check_jacobian(auto_set_step=True)`` at the
+    requested point: truncation error of the scheme for the largest admissible step + rounding of the function values
+    and of the perturbed point for the smallest one."""
+    rng_ = auto_step_range(hist, op, req)
+    if rng_ is None:
+        return None
+    x = base.frl(req["x"])
+    eq = eq_case(hist, req)
+    worst = Fraction(0)
+    for c in eq["idx"]:
+        lo, hi = rng_[c]
+        if not 0 < lo <= hi <= Fraction(1, 16):
+            return None
+        for j in comps(hist["out_sizes"], req["outs"]):
+            p = hist["polys"][j]
+            d1 = poly_partial(p, c)
+            d2 = poly_partial(d1, c)
+            d3 = poly_partial(d2, c)
+            if hist["scheme"] == "fd":
+                trunc = hi / 2 * base.poly_abs_sup(d2, x, c, hi)
+            else:
+                trunc = hi * hi / 6 * base.poly_abs_sup(d3, x, c, hi)
+            rnd = (2 * EPS * base.poly_abs_sup(p, x, c, hi) + EPS * (abs(x[c]) + 1) * base.poly_abs_sup(d1, x, c, hi)) / lo
+            worst = max(worst, trunc + rnd)
+    return worst
+
+
 # --------------------------------------------------------------------------- implementation
 
 
@@ -372,7 +521,7 @@ def exact_jac(hist, x) -> list[list[Fraction]]:
 
 
 def analytic_dict(hist, op, outs, ins) -> dict[str, dict[str, np.ndarray]]:
-    E = exact_jac(hist, op["x"])
+    E = exact_jac(hist, eff_x(hist, op))
     A = np.array([[float(v) for v in row] for row in E])
     if op.get("wrong"):
         w = op["wrong"]
@@ -421,10 +570,10 @@ def run_hist(hist) -> list[dict[str, Any]]:
                 ap.step = _step_py(op["step"])
                 o["ok"] = True
             elif kind == "jac":
-                d.execute(point_data(hist, op["x"]))
+                d.execute(point_data(hist, op["x"], op.get("given")))
                 o["jac"] = _jac_lists(ap.compute_approx_jac(list(op["outs"]), list(op["ins"]), list(op["xidx"])))
             elif kind == "chk":
-                d.execute(point_data(hist, op["x"]))
+                d.execute(point_data(hist, op["x"], op.get("given")))
                 o["verdict"] = bool(ap.check_jacobian(
                     list(op["outs"]), list(op["ins"]), analytic_jacobian=analytic_dict(hist, op, op["outs"], op["ins"]),
                     threshold=float(Fraction(2) ** op["threshold_pow"]), indices=_indices_py(op["sel"]),
@@ -434,16 +583,31 @@ def run_hist(hist) -> list[dict[str, Any]]:
                     d.add_differentiated_inputs(list(op["add_ins"]))
                 if op.get("add_outs"):
                     d.add_differentiated_outputs(list(op["add_outs"]))
-                o["jac"] = _jac_lists(d.linearize(point_data(hist, op["x"]), compute_all_jacobians=bool(op.get("all"))))
+                data = point_data(hist, op["x"], op.get("given"))
+                if data or op.get("given") is None:
+                    jac = d.linearize(data, compute_all_jacobians=bool(op.get("all")))
+                else:
+                    jac = d.linearize(compute_all_jacobians=bool(op.get("all")))  # at the default inputs
+                o["jac"] = _jac_lists(jac)
             elif kind == "dchk":
                 w = op.get("wrong")
                 d.jac_error = {(w["row"], w["col"]): Fraction(w["delta"])} if w else {}
                 try:
+                    data = point_data(hist, op["x"], op.get("given"))
+                    opts: dict[str, Any] = {}
+                    if op.get("auto"):
+                        opts["auto_set_step"] = True
+                    elif op.get("explicit"):
+                        opts["auto_set_step"] = False  # the default value, passed explicitly
+                    if op.get("lmode", "auto") != "auto" or op.get("explicit"):
+                        opts["linearization_mode"] = op.get("lmode", "auto")
+                    if hist.get("parallel"):
+                        opts.update(parallel=True, n_processes=2)
                     o["verdict"] = bool(d.check_jacobian(
-                        point_data(hist, op["x"]), derr_approx=MODE[hist["scheme"]], step=_step_py(op["step"]),
+                        *([data] if data or op.get("given") is None else []),
+                        derr_approx=MODE[hist["scheme"]], step=_step_py(op["step"]),
                         threshold=float(Fraction(2) ** op["threshold_pow"]), input_names=list(op["ins"]),
-                        output_names=list(op["outs"]), indices=_indices_py(op["sel"]),
-                        **({"parallel": True, "n_processes": 2} if hist.get("parallel") else {}),
+                        output_names=list(op["outs"]), indices=_indices_py(op["sel"]), **opts,
                     ))
                 finally:
                     d.jac_error = {}
@@ -451,8 +615,33 @@ def run_hist(hist) -> list[dict[str, Any]]:
                     d.linearization_mode = MODE[hist["scheme"]]
         except Exception as e:  # noqa: BLE001
             o["exc"] = common.exc_class(e) + ": " + repr(e)[:140]
+        # the default inputs of the discipline as the two public accessors show them after the request
+        try:
+            o["defaults"] = [_defaults_lists(d.io.input_grammar.defaults), _defaults_lists(d.default_input_data)]
+        except Exception as e:  # noqa: BLE001
+            o["defaults"] = "unreadable: " + common.exc_class(e) + ": " + repr(e)[:100]
         obs.append(o)
     return obs
+
+
+def _defaults_lists(mapping) -> dict[str, Any]:
+    return {str(k): np.asarray(v).tolist() for k, v in mapping.items()}
+
+
+def defaults_failure(hist, o) -> str:
+    """'' when both accessors show the default inputs the discipline was built with: same names, same values."""
+    want = {nm: [float(Fraction(v)) for v in hist["defaults"][a : a + s]] for nm, (a, s) in slices(hist["in_sizes"]).items()}
+    got = o.get("defaults")
+    if not isinstance(got, list):
+        return f"the default inputs cannot be read: {got}"
+    for which, g in zip(("io.input_grammar.defaults", "default_input_data"), got):
+        if sorted(g) != sorted(want):
+            return f"{which} has the names {sorted(g)}, the discipline was built with {sorted(want)}"
+        for nm in want:
+            v = g[nm]
+            if not (isinstance(v, list) and len(v) == len(want[nm]) and all(isinstance(a, float) and a == b for a, b in zip(v, want[nm]))):
+                return f"{which}[{nm!r}] is {v} after the request, the discipline was built with {want[nm]}"
+    return ""
 
 
 def _jac_lists(jac) -> dict[str, dict[str, Any]]:
@@ -462,12 +651,29 @@ def _jac_lists(jac) -> dict[str, dict[str, Any]]:
 # --------------------------------------------------------------------------- oracle
 
 
-def hist_oracle(hist, op, req, o) -> list[tuple[str, str]]:
+def approx_cached_before(hist, t: int) -> bool:
+    """``Discipline.check_jacobian`` (op ``t``) linearizes "analytically" through the cache of the discipline: at a
+    point where an earlier ``linearize`` of the history stored an *approximated* Jacobian the cache may serve that one
+    as the analytic Jacobian (cache semantics, properties C05/C11) — the verdict of such a check is not judged."""
+    op = hist["ops"][t]
+    if op["op"] != "dchk" or hist.get("cache", "simple") == "none":
+        return False
+    x = eff_x(hist, op)
+    return any(o["op"] == "lin" and eff_x(hist, o) == x for o in hist["ops"][:t])
+
+
+def hist_oracle(hist, op, req, o, unjudged: bool = False) -> list[tuple[str, str]]:
     sch = hist["scheme"]
     tag = f"{sch},{op['op']}"
     if "exc" in o:
         return [(f"disc-history-raises[{tag}]", o["exc"])]
     bad: list[tuple[str, str]] = []
+    msg = defaults_failure(hist, o)
+    if msg:
+        # the point of every later request that leaves an input to its default value is defined by these values
+        bad.append((f"disc-history-defaults-changed[{tag}]", msg))
+    if unjudged:
+        return bad
     if op["op"] in ("chk", "dchk"):
         w = op.get("wrong")
         if not w:
@@ -593,7 +799,7 @@ def chk_line(hist, op, req, ans: str) -> str | None:
     rows = comps(hist["out_sizes"], req["outs"])
     cols = comps(hist["in_sizes"], req["ins"])
     so, si = slices(hist["out_sizes"]), slices(hist["in_sizes"])
-    E = exact_jac(hist, op["x"])
+    E = exact_jac(hist, req["x"])
     a = [[F(float(E[j][g])) for g in cols] for j in rows]
     if op.get("wrong"):
         w = op["wrong"]
@@ -638,6 +844,14 @@ def hist_simplifications(hist):
             c[key] = val
             yield c
     for t, op in enumerate(ops):
+        if op.get("given") is not None and op["op"] in ("jac", "lin"):
+            c = dict(hist)
+            c["ops"] = ops[:t] + [{k: v for k, v in op.items() if k != "given"}] + ops[t + 1 :]
+            yield c
+        if op.get("auto") or op.get("explicit") or op.get("lmode", "auto") != "auto":
+            c = dict(hist)
+            c["ops"] = ops[:t] + [dict(op, auto=False, explicit=False, lmode="auto")] + ops[t + 1 :]
+            yield c
         for fld in ("xidx", "sel"):
             if op.get(fld):
                 c = dict(hist)
@@ -668,9 +882,21 @@ def hist_valid(hist) -> bool:
         if op["op"] in ("lin", "dchk") and hist["api"] != "disc":
             return False
         advance(hist, op, state)
+        if op.get("given") is not None and any(nm not in dict(hist["in_sizes"]) for nm in op["given"]):
+            return False
         req = request_of(hist, op, state)
         if not req["ins"] or not req["outs"] or not req_ok(hist, req):
             return False
+        if op.get("auto"):
+            b = auto_bound(hist, op, req)
+            if hist["scheme"] == "cs" or b is None or not 8 * b <= Fraction(2) ** op["threshold_pow"]:
+                return False
+        elif op["op"] in ("chk", "dchk"):
+            # the threshold of a check was sized for the request it was generated with (>= 4 x the analytic bound)
+            eq = eq_case(hist, req)
+            maxb = max(base.allowed_bound(eq, j, c)[1] for j in range(hist["m"]) for c in eq["idx"])
+            if not 4 * maxb <= Fraction(2) ** op["threshold_pow"]:
+                return False
         if op.get("sel") and (op["op"] in ("chk", "dchk")):
             if op.get("wrong"):
                 w = op["wrong"]
@@ -693,7 +919,7 @@ def hist_failures(hist) -> list[tuple[int, str, str]]:
             continue
         advance(hist, op, state)
         req = request_of(hist, op, state)
-        for k, m in hist_oracle(hist, op, req, o):
+        for k, m in hist_oracle(hist, op, req, o, approx_cached_before(hist, t)):
             out.append((t, k, m))
     return out
 
@@ -755,9 +981,9 @@ def check_hists(res: Result, hists: list[dict[str, Any]]) -> None:
                 state["step"] = op["step"]
                 continue
             advance(h, op, state)
-            if op["op"] in ("chk", "dchk"):
+            if op["op"] in ("chk", "dchk") and not op.get("auto") and not approx_cached_before(h, t):
                 req = request_of(h, op, state)
-                ln = chk_line(h, op, req, answers[a0 + where[t]])
+                ln = chk_line(h, op, req, split_answer(answers[a0 + where[t]])[0])
                 if ln is not None:
                     chk_pos[(hi, t)] = len(chk_lines)
                     chk_lines.append(ln)
@@ -798,9 +1024,28 @@ def check_hists(res: Result, hists: list[dict[str, Any]]) -> None:
                 res.count("hist-request:x_indices")
             if op.get("wrong"):
                 res.count("hist-request:wrong-analytic-jacobian")
+            if op.get("given") is not None:
+                left = [nm for nm, _ in h["in_sizes"] if nm not in op["given"]]
+                if left:
+                    res.count("hist-request:inputs-left-to-defaults" + (":no-input-data" if not op["given"] else ""))
+                    sl = slices(h["in_sizes"])
+                    away = [nm for nm in left
+                            if any(p[sl[nm][0] : sl[nm][0] + sl[nm][1]] != h["defaults"][sl[nm][0] : sl[nm][0] + sl[nm][1]] for p in seen_points)]
+                    if away:
+                        res.count("hist-request:input-left-to-default-after-request-away-from-it")
+                        if any(nm not in req["ins"] for nm in away):
+                            res.count("hist-request:undifferentiated-input-left-to-default-after-request-away-from-it")
+            if op["op"] == "dchk":
+                res.count("hist-dchk:auto_set_step=" + ("True" if op.get("auto") else "False(explicit)" if op.get("explicit") else "default"))
+                res.count("hist-dchk:linearization_mode=" + (op.get("lmode", "auto") if op.get("lmode", "auto") != "auto" or op.get("explicit") else "default"))
+                if op.get("auto") and req["x"] != h["defaults"]:
+                    res.count("hist-dchk:auto_set_step-away-from-default-inputs")
             seen_points.append(req["x"])
             prev = req
-            bad = hist_oracle(h, op, req, o)
+            unjudged = approx_cached_before(h, t)
+            if unjudged:
+                res.count("hist:check-where-an-approximated-jacobian-may-be-cached-not-judged")
+            bad = hist_oracle(h, op, req, o, unjudged)
             for key, msg in bad:
                 res.count("oracle-fail:" + key)
                 if any(v.key == key for v in res.violations):
@@ -810,8 +1055,15 @@ def check_hists(res: Result, hists: list[dict[str, Any]]) -> None:
                 res.violate("oracle", key, fl[0][2] if fl else msg,
                             {"hist": small, "failing_op": fl[0][0] if fl else t, "what": fl[0][2] if fl else msg,
                              "protocol_lines": hist_lines(small)[0]})
-            ans = answers[a0 + where[t]]
+            ans, model_defaults = split_answer(answers[a0 + where[t]])
             msg = hist_compare(h, op, req, o, ans)
+            if op.get("auto"):
+                # the value of the "optimal" step is not modelled: oracle only (exact Jacobian accepted / wrong rejected)
+                res.count("hist:auto-step-verdict-not-compared-with-model")
+                msg = ""
+            if model_defaults is not None:
+                res.count("hist:defaults-after-request-compared-with-model")
+                msg = msg or defaults_vs_model(h, o, model_defaults)
             if msg and op["op"] == "lin" and h.get("cache") != "none" and req["x"] in analytic_points and "jac" in o:
                 # Discipline.check_jacobian linearized analytically at this point before: a cache that keeps every
                 # execution serves that (exact) Jacobian again — error 0, inside every bound
@@ -833,7 +1085,7 @@ def check_hists(res: Result, hists: list[dict[str, Any]]) -> None:
                     res.violate("correspondence", f"disc-history-model-vs-impl[{sch}]",
                                 f"op {t} ({op['op']}) of a discipline history differs from the model: {msg}",
                                 {"hist": h, "failing_op": t, "protocol_lines": all_lines[a0 : a0 + len(h["ops"]) + 1],
-                                 "model": ans, "correspondence": "Driver/C16.lean new/setstep/req/chk"})
+                                 "model": ans, "correspondence": "Driver/C16.lean new/setstep/req/dreq/chk"})
         if agree:
             res.traces_validated += 1
 
